@@ -699,14 +699,17 @@ CHOICE_decode_xer(const asn_codec_ctx_t *opt_codec_ctx,
 		}
 
 		switch(tcv) {
-		case XCT_BOTH:
-			break;	/* No CHOICE? */
 		case XCT_CLOSING:
 			if(ctx->phase != 3)
 				break;
 			XER_ADVANCE(ch_size);
 			ctx->phase = 5;	/* Phase out */
 			RETURN(RC_OK);
+		case XCT_BOTH:
+			if(ctx->phase != 1)
+				break;	/* No CHOICE? */
+			/* <name/> inside <name>: an alternative, known or not */
+			/* Fall through */
 		case XCT_OPENING:
 			if(ctx->phase == 0) {
 				XER_ADVANCE(ch_size);
